@@ -52,6 +52,7 @@ class Check:
     RULE = ""
     ASSUMPTIONS = []
     PROBE = "plain"          # which build tree the probe uses; None = no probe
+    PROBE_GROUP = "all"      # harness/probe/cmd_<group>*.cpp
     SHARDS = 16
     EXAMPLES = {"quick": 100, "thorough": 2000}     # per shard
     TIME_CAP = {"quick": 240, "thorough": 1500}     # soft cap (s) for the search phase
@@ -104,8 +105,8 @@ class Ctx:
     @property
     def P(self):
         if self._probe is None:
-            exe = build.ensure_probe(self.chk.PROBE) if not os.environ.get("VERIF_NOBUILD") else \
-                os.path.join(build.BUILD, "opmprobe-" + self.chk.PROBE)
+            exe = build.ensure_probe(self.chk.PROBE, self.chk.PROBE_GROUP) if not os.environ.get("VERIF_NOBUILD") else \
+                os.path.join(build.BUILD, "opmprobe-%s-%s" % (self.chk.PROBE, self.chk.PROBE_GROUP))
             self._probe = Probe(exe, env=self.chk.PROBE_ENV, tmp_root=self.tmp_root)
         return self._probe
 
@@ -363,7 +364,7 @@ def main_check(modname, clsname, tier, seed, replay=None):
     # build first (serialised by flock), so that shards only run
     try:
         if chk.PROBE:
-            build.ensure_probe(chk.PROBE)
+            build.ensure_probe(chk.PROBE, chk.PROBE_GROUP)
         if hasattr(chk, "prepare"):
             chk.prepare(tier)
     except build.BuildError as e:
